@@ -141,12 +141,20 @@ def dataid_def(ctx: Ctx) -> List[Ob]:
     ok = has("len($$x) > 1", h.node) or has("len($$x) >= 2", h.node)
     obs.append(ctx.ob("DATAID-DEF", ["C02"], h, "is_clone: more than one node under the id", None, ok, "" if ok else "a clone is a node whose data is referenced at least twice"))
     h = m.func("Node.get_clones")
-    a = one("$c = self._tree._nodes_by_data_id[self._data_id]", h.node)
-    ok = a is not None
-    if ok:
-        env = {"$c": a[1]["$c"]}
-        ok = has("if add_self:\n    return $c.copy()", h.node, env) or has("if add_self:\n    return list($c)", h.node, env)
-        ok = ok and any(match("[$n for $n in $c if $n is not self]", r.value, env) is not None for r in _returns(h))
+    from .util import resolve_expr as _rx
+
+    SLOTX = "self._tree._nodes_by_data_id[self._data_id]"
+    cs_ = [c for c in exit_cases(ctx, h, ("return",)) if c.value is not None]
+    ok = bool(cs_)
+    for c in cs_:
+        v = _rx(ctx, h, c.stmt, c.value)
+        ts = cond_texts(c.conds)
+        if "add_self" in ts:
+            ok = ok and norm(v) in (f"{SLOTX}.copy()", f"list({SLOTX})", f"{SLOTX}[:]")
+        elif "not add_self" in ts:
+            ok = ok and match(f"[$n for $n in {SLOTX} if $n is not self]", v) is not None
+        else:
+            ok = False
     obs.append(ctx.ob("DATAID-DEF", ["C02"], h, "get_clones: a copy of the clone list, without self (by identity) unless add_self", None, ok,
                       "" if ok else "the result must be a new list; self is excluded by identity"))
     return obs
@@ -253,7 +261,15 @@ def kind_branch(ctx: Ctx) -> List[Ob]:
         cmps = [n for n in ast.walk(f.node) if _is_kind_eq(n, own) is not None]
         deleg = [c for c in ast.walk(f.node) if isinstance(c, ast.Call) and isinstance(c.func, ast.Attribute)
                  and c.func.attr in ("first_sibling", "last_sibling", "get_children") and norm(c.func.value) in ("self", "self.parent", "self._parent")]
-        ok = bool(cmps) or bool(deleg)
+        # ... or hands its own kind to a helper that compares `<n>._kind == <that parameter>`
+        via_helper = False
+        for c in ctx.env.calls_in[f]:
+            for g, _recv in ctx.env.callees(f, c):
+                for pi, pn in enumerate([p_ for p_ in g.positional_params() if p_ != g.self_name]):
+                    a_ = c.args[pi] if pi < len(c.args) else next((k.value for k in c.keywords if k.arg == pn), None)
+                    if a_ is not None and norm(a_) in own and any(_is_kind_eq(n, {pn}) is not None for n in ast.walk(g.node)):
+                        via_helper = True
+        ok = bool(cmps) or bool(deleg) or via_helper
         T(f, f"{name}: the kind branch compares with the node's own kind (or delegates to a kind-aware query)", ok, "siblings of the same kind only")
     for name in ("prev_sibling", "next_sibling", "first_child", "last_child", "first_sibling", "last_sibling"):
         f = m.func(f"TypedNode.{name}")
@@ -906,18 +922,31 @@ def gen(ctx: Ctx) -> List[Ob]:
             iv = norm(il.target)
             cnt = norm(resolve_expr(ctx, f, il, il.iter.args[-1] if il.iter.args else il.iter))
             spec_name = None
-            mm = match("_resolve_random($$s.pop(':count', 1)) or 0", resolve_expr(ctx, f, il, il.iter.args[0])) if len(il.iter.args) == 1 else None
-            T(f, "_make_tree: exactly `count` children per relation; count defaults to 1 and randomized counts are resolved (None -> 0)", mm is not None, f"count is `{cnt}`")
             inc = find(f"{iv} += 1", il)
-            one_based = (len(inc) == 1 and il.body and any(inc[0][0] is x for x in ast.walk(il.body[0])))
+            if len(il.iter.args) == 1:
+                # range(count) with `i += 1` as the first step of the round
+                mm = match("_resolve_random($$s.pop(':count', 1)) or 0", resolve_expr(ctx, f, il, il.iter.args[0]))
+                one_based = (len(inc) == 1 and il.body and any(inc[0][0] is x for x in ast.walk(il.body[0])))
+            elif len(il.iter.args) == 2 and norm(il.iter.args[0]) == "1":
+                # range(1, count + 1)
+                hi = resolve_expr(ctx, f, il, il.iter.args[1])
+                mm = match("(_resolve_random($$s.pop(':count', 1)) or 0) + 1", hi) or match("1 + (_resolve_random($$s.pop(':count', 1)) or 0)", hi)
+                one_based = not inc
+            else:
+                mm, one_based = None, False
+            T(f, "_make_tree: exactly `count` children per relation; count defaults to 1 and randomized counts are resolved (None -> 0)", mm is not None, f"count is `{cnt}`")
             T(f, "_make_tree: 1-based sibling index", bool(one_based), "indices start at 1")
             # the dotted path
             rr = [c for c in ast.walk(il) if isinstance(c, ast.Call) and norm(c.func) == "_resolve_random_dict"]
             ok = None
             if len(rr) == 1:
                 mk = [k for k in rr[0].keywords if k.arg == "macros"]
-                if mk and isinstance(mk[0].value, ast.Dict):
-                    md = {norm(k): v for k, v in zip(mk[0].value.keys, mk[0].value.values)}
+                mdv = None
+                if mk:
+                    mvals = reaching_values(ctx, f, rr[0], mk[0].value)
+                    mdv = mvals[0] if len(mvals) == 1 and isinstance(mvals[0], ast.Dict) else None
+                if mdv is not None:
+                    md = {norm(k): v for k, v in zip(mdv.keys, mdv.values)}
                     ok = set(md) == {"'idx'", "'hier_idx'"} and norm(md["'idx'"]) == iv
                     if ok and isinstance(md["'hier_idx'"], ast.Name):
                         pv = md["'hier_idx'"].id
@@ -949,7 +978,7 @@ def gen(ctx: Ctx) -> List[Ob]:
                 pn_vals = reaching_values(ctx, f, recs[0], kw.get("parent_node")) if kw.get("parent_node") is not None else []
                 ok = f"{ntv} in relations" in ts and bool(adds) and all(any(v_ is a_ for a_ in adds) for v_ in pn_vals) and len(pn_vals) == len(adds) \
                     and norm(kw.get("parent_type")) == ntv and norm(kw.get("types")) == "types" and norm(kw.get("relations")) == "relations" \
-                    and rr and isinstance(mk[0].value, ast.Dict) and norm(kw.get("prefix")) == norm(md["'hier_idx'"])
+                    and rr and mdv is not None and norm(kw.get("prefix")) == norm(md["'hier_idx'"])
             T(f, "_make_tree: recursion below the new node with its type and prefix, only for types that have relations", ok, "")
         else:
             T(f, "_make_tree: exactly `count` children per relation; count defaults to 1 and randomized counts are resolved (None -> 0)", None, "count loop not recognised")
